@@ -16,7 +16,8 @@ Local Open Scope Z_scope.
    object's own parameters; SSL_set_app_data(ssl, conn); the four return statements of _tls_verify; the handler is
    shown X509_STORE_CTX_get_current_cert (the certificate the error is about); when conn_tls_start failed,
    _handle_proceedtls_default calls xmpp_disconnect and nothing else (in particular not _auth), conn_established
-   calls conn_disconnect and returns *)
+   calls conn_disconnect and returns; conn->domain (the name that is pinned) is written by _conn_connect and
+   _conn_reset only, i.e. it is the domain of the configured JID and nothing the peer sent *)
 Theorem tls_source_config_is_expected :
   tls_verify_calls = expected_verify_calls /\
   tls_hostflags_calls = expected_hostflags_calls /\
@@ -25,7 +26,8 @@ Theorem tls_source_config_is_expected :
   tls_verify_shape = expected_verify_shape /\
   tls_verify_cert_accessor = CURRENT_CERT /\
   tls_proceed_failure_calls = expected_proceed_failure_calls /\
-  tls_legacy_failure_calls = expected_legacy_failure_calls.
+  tls_legacy_failure_calls = expected_legacy_failure_calls /\
+  tls_domain_written_in = expected_domain_writers.
 Proof. exact Gen_tls_ok. Qed.
 Print Assumptions tls_source_config_is_expected.
 
